@@ -29,7 +29,7 @@ fn check(id: &str, tier: Tier) -> i32 {
             }).exit
         }
         "C17" => {
-            let n = ctx.runs(3_000, 300_000);
+            let n = ctx.runs(8_000, 400_000);
             let seed = ctx.seed;
             let threads = ctx.threads;
             run_check(&props::c17::C17, &ctx, &[], move |cov, assume, xs| props::c17::strata(seed, n, threads, cov, assume, xs)).exit
@@ -47,11 +47,11 @@ fn check(id: &str, tier: Tier) -> i32 {
             }).exit
         }
         "C19" => {
-            let n = ctx.runs(3_000, 200_000);
+            let n = ctx.runs(10_000, 300_000);
             run_check(&props::c19::C19, &ctx, &[("programs", n)], |_, _, _| Vec::new()).exit
         }
         "C09" => {
-            let n = ctx.runs(3_000, 150_000);
+            let n = ctx.runs(12_000, 300_000);
             run_check(&props::c09::C09, &ctx, &[("graphs", n)], |_, _, _| Vec::new()).exit
         }
         "C08" => {
@@ -101,19 +101,19 @@ fn check(id: &str, tier: Tier) -> i32 {
             }).exit
         }
         "C14" => {
-            let n = ctx.runs(4_000, 200_000);
+            let n = ctx.runs(12_000, 300_000);
             run_check(&props::c14::C14, &ctx, &[("programs", n)], |_, _, _| Vec::new()).exit
         }
         "C11" => {
-            let n = ctx.runs(1_500, 40_000);
+            let n = ctx.runs(4_000, 60_000);
             run_check(&props::c11::C11, &ctx, &[("histories", n)], |_, _, _| Vec::new()).exit
         }
         "C07" => {
-            let n = ctx.runs(4_000, 250_000);
+            let n = ctx.runs(12_000, 400_000);
             run_check(&props::c07::C07, &ctx, &[("programs", n)], |_, _, _| Vec::new()).exit
         }
         "C02" => {
-            let n = ctx.runs(3_000, 300_000);
+            let n = ctx.runs(12_000, 400_000);
             run_check(&props::c02::C02, &ctx, &[("programs", n)], |_, _, _| Vec::new()).exit
         }
         _ => {
